@@ -114,6 +114,16 @@ def match_gates(prog, body, pred, variant, level=OKFLOW):
             if o.kind != "discr":
                 continue
             pl = o.info.place
+            # the switched value must be of the variant's own type: a `?` on `opt.ok_or_else(..)` switches on a ControlFlow whose
+            # OKFLOW leaves are those of `opt`, but its arms are Continue / Break, not Some / None
+            if not pl.proj:
+                ty = body.local_ty(pl.local) or ""
+                fam = {"Some": "Option<", "None": "Option<", "Ok": "Result<", "Err": "Result<", "Continue": "ControlFlow<", "Break": "ControlFlow<",
+                       "Ready": "Poll<", "Pending": "Poll<"}.get(variant)
+                head = ty.lstrip("&").replace("mut ", "").strip()
+                if fam and head and head.startswith(("std::option::Option<", "std::result::Result<", "std::ops::ControlFlow<", "std::task::Poll<")) \
+                        and not head.split("<", 1)[0].endswith(fam[:-1]):
+                    continue
             leaves = prog.resolve_lifted(body, pl.local, norm_path(pl), level)
             if leaves and all(pred(x) for x in leaves):
                 tgt = switch_target(t, VIDX[variant])
@@ -225,21 +235,48 @@ def ret_defs(prog, body):
     idx = prog.idx(body)
     out = []
     # the return place, and the temporaries that are only ever moved into it (what a looked-through helper's `return x` leaves
-    # behind: `_r = x; ... ; _0 = move _r` in one shared block): the definitions of such a temporary are the return points
-    chain, work, defs = {0}, [0], []
-    while work:
-        r = work.pop()
-        for kind, blk, i, d, obj in idx.defs.get(r, []):
-            if not d and kind == "assign" and obj.rv.k == "use" and obj.rv.ops and obj.rv.ops[0].place is not None \
-                    and not obj.rv.ops[0].place.proj and obj.rv.ops[0].k == "move":
-                L = obj.rv.ops[0].place.local
-                if L > body.arg_count and len([1 for x in idx.defs.get(L, []) if not x[3]]) > 1 and obj.j.get("inlined_ret"):
-                    if L not in chain:
-                        chain.add(L)
-                        work.append(L)
-                    continue
-            if not d:
-                defs.append((kind, blk, i, d, obj))
+    # behind: `_r = x; ... ; _0 = move _r` in one shared block — or, for a looked-through `helper(..).await`,
+    # `p = Poll::Ready(move _r); ...; _t = move (p as Ready).0; _0 = move _t`): the definitions of such a temporary are the
+    # return points. Plain moves are followed only when they lead to such a marker, so that nothing changes for code that was
+    # not looked through.
+    def expand(local, depth=0):
+        """Underlying return definitions of `local`, or None if no looked-through return is behind it."""
+        if depth > 6:
+            return None
+        ds = [x for x in idx.defs.get(local, []) if not x[3]]
+        if not ds:
+            return None
+        out_, marked = [], False
+        for x in ds:
+            kind, blk, i, d, obj = x
+            if kind == "assign" and obj.rv.k == "use" and obj.rv.ops and obj.rv.ops[0].place is not None and obj.rv.ops[0].k == "move":
+                pl = obj.rv.ops[0].place
+                if not pl.proj and pl.local > body.arg_count:
+                    if obj.j.get("inlined_ret"):
+                        sub = expand(pl.local, depth + 1)
+                        out_ += sub if sub is not None else [y for y in idx.defs.get(pl.local, []) if not y[3]]
+                        marked = True
+                        continue
+                    sub = expand(pl.local, depth + 1)
+                    if sub is not None:
+                        out_ += sub
+                        marked = True
+                        continue
+                elif len(pl.proj) == 2 and pl.proj[0].get("k") == "downcast" and pl.proj[0].get("variant") == "Ready":
+                    pdefs = [y for y in idx.defs.get(pl.local, []) if not y[3]]
+                    if pdefs and all(y[0] == "assign" and y[4].j.get("inlined_ret") and y[4].rv.k == "agg" and y[4].rv.ops and
+                                     y[4].rv.ops[0].place is not None and not y[4].rv.ops[0].place.proj for y in pdefs):
+                        for y in pdefs:
+                            R_ = y[4].rv.ops[0].place.local
+                            sub = expand(R_, depth + 1)
+                            out_ += sub if sub is not None else [z for z in idx.defs.get(R_, []) if not z[3]]
+                        marked = True
+                        continue
+            out_.append(x)
+        return out_ if marked else None
+    defs = expand(0)
+    if defs is None:
+        defs = [x for x in idx.defs.get(0, []) if not x[3]]
     for kind, blk, i, d, obj in defs:
         if kind == "assign":
             rv = obj.rv
